@@ -737,6 +737,15 @@ def C02_misc_rewrites_family(include_not_true=False, only_dropout=False):
                         outs.append(helper.make_tensor_value_info("m", F, [2, 3]))
                     vis = [helper.make_tensor_value_info("s", F, [2, 3]), helper.make_tensor_value_info("m", F, [2, 3])]
                     cases.append((f"Mul({order},{other}) Sigmoid [{variant}] opset {opset}", model(nodes, xy_in, outs, vis=vis, opset=opset), "rewrite_mul_sigmoid_as_swish_ir", {"x": (2, 3), "w": (2, 3)}, opset == 24))
+    # --- Swish where the Sigmoid output is captured by an If branch (no node consumer, no graph output: still observed)
+    for order in ("xs", "sx"):
+        then_g = helper.make_graph([helper.make_node("Identity", ["s"], ["t"])], "then_b", [], [helper.make_tensor_value_info("t", F, [2, 3])])
+        else_g = helper.make_graph([helper.make_node("Neg", ["s"], ["e"])], "else_b", [], [helper.make_tensor_value_info("e", F, [2, 3])])
+        nodes = [helper.make_node("Sigmoid", ["x"], ["s"], name="sig"), helper.make_node("Mul", (["x", "s"] if order == "xs" else ["s", "x"]), ["m"], name="mul"),
+                 helper.make_node("Greater", ["w", "w"], ["cnd_t"], name="gt"), helper.make_node("ReduceMax", ["cnd_t"], ["cnd"], name="rmax", keepdims=0),
+                 helper.make_node("If", ["cnd"], ["z"], name="if", then_branch=then_g, else_branch=else_g)]
+        outs = [helper.make_tensor_value_info("m", F, [2, 3]), helper.make_tensor_value_info("z", F, [2, 3])]
+        cases.append((f"Mul({order}) Sigmoid with the Sigmoid output captured by an If branch, opset 24", model(nodes, xy_in, outs, opset=24), "rewrite_mul_sigmoid_as_swish_ir", {"x": (2, 3), "w": (2, 3)}, False))
     # --- rsqrt (gate off by default)
     one = numpy_helper.from_array(np.asarray(1.0, np.float32), "one")
     nodes = [helper.make_node("Abs", ["x"], ["a"], name="abs"), helper.make_node("Sqrt", ["a"], ["q"], name="sqrt"), helper.make_node("Div", ["one", "q"], ["r"], name="div"),
